@@ -115,7 +115,7 @@ def C15(tier, rng):
     cs = []
     cs += sweep_enc_rr_cases(types=(OPT,)) + sweep_rr_wire_cases(types=(OPT,))
     # option values reached through the setters (a refused call must not leave a value outside the RFC domain behind)
-    cs += cookie_histories(2)
+    cs += cookie_histories(2) + prefix_histories(2)
     for payload in range(0, 65536, sz(tier, 1, 1)):
         cs.append(Case('dec.rr %s' % hx(opt_rr([], cls=payload)), 'payload'))
     for pos in range(4):
@@ -407,4 +407,5 @@ def C18(tier, rng):
             cs.append(enc_case(msg_with(fillers + [r], qs=[q]), 'c18-end-of-message'))
     for _ in range(sz(tier, 10000, 60000)):
         cs.append(enc_case(rand_msg(rng, types=NEWTYPES + [2, 5, 6, 15, 12, 14, 1, 41]), 'random'))
+    cs += overlong_utf8_label_values()
     return cs
